@@ -61,7 +61,10 @@ def oracle(case):
         for p in ps:
             if not np.isfinite(float(after[p])):
                 return (dict(sig, clause="fit-nonfinite", param=p), "after fit %s is not finite" % p)
-        if all(float(after[p]) == float(free[p]) for p in free) and cname != "LogNormalNormFitDistribution":
+        # (a fixed Weibull location at or above the smallest observation leaves no admissible parameter vector: likelihood -inf
+        #  everywhere, nothing to estimate -- not judged)
+        infeasible = cname == "WeibullDistribution" and "gamma" in fixed and float(np.min(data)) <= float(fixed["gamma"])
+        if not infeasible and all(float(after[p]) == float(free[p]) for p in free) and cname != "LogNormalNormFitDistribution":
             return (dict(sig, clause="fit-not-estimated"), "non-fixed parameters were not estimated (unchanged start values)")
     return None
 
